@@ -238,6 +238,7 @@ def r17_3(ctx: Ctx) -> None:
         rf = [c.args[0].value for c in q.calls(r) if attr_tail(c) == "unpack" and isinstance(c.args[0], ast.Constant)]
         wf = [c.args[0].value for c in q.calls(w) if attr_tail(c) == "pack" and isinstance(c.args[0], ast.Constant)]
         rd = [c.args[0].value for c in q.calls(r) if attr_tail(c) == "read" and c.args and isinstance(c.args[0], ast.Constant)]
+        rd += [c.args[1].value for c in q.calls(r) if (dotted(c.func) or "").split(".")[-1] == "read_fully" and len(c.args) == 2 and isinstance(c.args[1], ast.Constant)]
         ctx.need(len(rf) == 1 and len(wf) == 1 and len(rd) == 1, f"{rn}/{wn} shape not recognised")
         ctx.check(rf == wf, "R17.3", r, r.node, f"{rn}/{wn} use the same format {rf[0]}", f"{rn} unpacks {rf[0]!r} but {wn} packs {wf[0]!r} (width/endianness disagree)", construct=f"{rn} vs {wn} format")
         ctx.check(struct.calcsize(rf[0]) == rd[0], "R17.3", r, r.node, f"{rn} reads calcsize({rf[0]})={rd[0]} bytes", f"{rn} reads {rd[0]} bytes for format {rf[0]!r} ({struct.calcsize(rf[0])} bytes)",
